@@ -1,6 +1,7 @@
 package main
 
 import (
+	"sync"
 	"fmt"
 	"go/types"
 	"sort"
@@ -21,6 +22,10 @@ type FuncResult struct {
 	Failed    string   // out of reach
 	NumInstrs int
 	ctx       *Ctx
+	itemSyms  [][]string
+	declared  map[string]int
+	symUsers  map[string][]int
+	pruneMu   sync.Mutex
 }
 
 func displayName(fn *ssa.Function) string { return fnKey(fn) }
@@ -163,6 +168,21 @@ func (w *World) verifyFunc(fn *ssa.Function, fc *FuncContract, mode string, extr
 		}
 		c.curPos = fn.Pos()
 		penv := &Env{c: c, st: out, old: entry, vars: post, pkg: pkg, guard: Rret}
+		for i, ow := range fc.Owns {
+			when := "true"
+			if ow.When != nil {
+				when = penv.evalBool(ow.When)
+			}
+			x, y := penv.eval(ow.X), penv.eval(ow.Y)
+			if len(x.L) != 1 || len(y.L) != 1 {
+				c.fail("owns: single references expected")
+			}
+			c.declFun("ownerOf", SRef, SRef)
+			// the object must have been allocated by this function: its owner has not been fixed before
+			c.oblige("ensures", fmt.Sprintf("owns%d.fresh", i+1), tAnd(Rret, when), tAnd(tNot(tEq(x.L[0], "null")), tNot(tSel(c.allocComp(entry), x.L[0]))))
+			c.assume(tAnd(Rret, when), tEq(app("ownerOf", x.L[0]), y.L[0]))
+			c.note("ghost ownership fixed at allocation (uninterpreted owner function): %s", ow.Text)
+		}
 		for i, en := range fc.Ensures {
 			label := en.Label
 			if label == "" {
